@@ -135,7 +135,7 @@ theorem flatten_particle (s : SchemaSet) (f : SchemaFile) (uri : String) (p : Pa
     simp [this]
   | .ref ns n o =>
     have hok : OccOk o := by simpa [PartOk] using hp
-    have := leaf_wrapper [⟨"ref", none, prefixOf f ns ++ ":" ++ n⟩] o hok anc (by intro a ha; simp at ha; rcases ha with rfl; simp)
+    have := leaf_wrapper [⟨"ref", none, qname f ns n⟩] o hok anc (by intro a ha; simp at ha; rcases ha with rfl; simp)
     simp only [List.cons_append, List.nil_append] at this
     simp only [Particle.toX, memberSitesList, XNode.isElem, XNode.tag, Ref.flattenParticle]
     simp [this]
